@@ -217,7 +217,7 @@ def readable (cl : Nat → List Nat) (s : St) (r : Root) : Bool :=
 /-- Node keys deleted while visiting the lone root `th` of version `v`: those whose visible
 item was written at exactly this version. -/
 def loneDeletes (clv : Nat → List Nat) (s : St) (v : Nat) (th : TH) : List Nat :=
-  (clv th.2).filter (fun h => match s.node.get h v with | some (ts, _) => ts == v | none => false)
+  (clv th.2).filter (fun h => match s.node.get h v with | some (ts, live) => live && ts == v | none => false)
 
 /-- The lone roots of a version (no derived roots). -/
 def loneRoots (s : St) (v : Nat) : List (TH × List TH) := (s.rmeta v).filter (fun e => e.2.isEmpty)
@@ -229,12 +229,15 @@ of this version" and carries on. -/
 def visitedRoots (s : St) (v : Nat) : List (TH × List TH) :=
   (loneRoots s v).filter (fun e => e.1.2 != 0 && s.rootNode.live (encTH e.1) v)
 
-/-- `api.Visit` fetches every node through GetNode and fails on the first missing one, and the
-visitor's own `tx.Get(nodeKey)` fails for an embedded leaf whose separate copy is gone. -/
-def visitFails (cl clv : Nat → List Nat) (s : St) (v : Nat) : Bool :=
+/-- `api.Visit` fetches every node a reader fetches through GetNode and fails on the first
+missing one. The visitor's own `tx.Get(nodeKey)` additionally fails for an embedded leaf whose
+separate copy is gone, but that failure is never reported: the visitor only records it in
+`innerErr` and returns `false` (the leaf has no children to skip), and the next visited node —
+there always is one, an internal node with an embedded leaf has at least one child, visited after
+the leaf — overwrites `innerErr` with `nil`. So such a leaf is simply not deleted. -/
+def visitFails (cl _clv : Nat → List Nat) (s : St) (v : Nat) : Bool :=
   (visitedRoots s v).any (fun e =>
-    (cl e.1.2).any (fun h => !nodeVisible s { ver := v, typ := e.1.1, hash := e.1.2 } h)
-    || (clv e.1.2).any (fun h => !s.node.live h v))
+    (cl e.1.2).any (fun h => !nodeVisible s { ver := v, typ := e.1.1, hash := e.1.2 } h))
 
 def pruneErr (cl clv : Nat → List Nat) (s : St) (v : Nat) : Option Err :=
   match s.last with
